@@ -340,11 +340,11 @@ def rule_writers(ck, rid="C04.R8"):
 
 
 def run(ck):
-    rule_writers(ck)
-    rule_update_schedules(ck)
-    rule_increase_width(ck)
-    rule_none(ck)
-    rule_broadcast(ck)
+    ck.attempt(rule_writers)
+    ck.attempt(rule_update_schedules)
+    ck.attempt(rule_increase_width)
+    ck.attempt(rule_none)
+    ck.attempt(rule_broadcast)
     # "the pilot applied to each station is the scheduled value": what update_pilots sends is latched by every EVSE, occupied or not
     from .c13 import rule_set_pilot_table
-    rule_set_pilot_table(ck, rid="C04.R9")
+    ck.attempt(rule_set_pilot_table, rid="C04.R9")
